@@ -65,6 +65,15 @@ func moduleText(c Case) string {
 		b.WriteString("typedef t {\n")
 		body()
 		b.WriteString("}\nleaf l { type t; }\n")
+	} else if c.Via == "union-member" {
+		// the type is the second member of its name in a union (after a sound one), and a member of a nested union
+		first := "type enumeration { enum zz-first; }"
+		if c.Kind == "bits" {
+			first = "type bits { bit zz-first; }"
+		}
+		b.WriteString("leaf l {\n type union {\n " + first + "\n")
+		body()
+		b.WriteString(" type union { type string; " + first + " }\n }\n}\n")
 	} else {
 		b.WriteString("leaf l {\n")
 		body()
@@ -173,10 +182,21 @@ func check(c Case) (o ev.Outcome) {
 				accepted = true
 				l := yang.ToEntry(ms.Modules["m"]).Dir["l"]
 				if l != nil && l.Type != nil {
-					if c.Kind == "enum" {
-						et = l.Type.Enum
-					} else {
-						et = l.Type.Bit
+					ty := l.Type
+					if c.Via == "union-member" {
+						// the second member of the union (the first is the sound one)
+						if len(ty.Type) >= 2 {
+							ty = ty.Type[1]
+						} else {
+							ty = nil
+						}
+					}
+					if ty != nil {
+						if c.Kind == "enum" {
+							et = ty.Enum
+						} else {
+							et = ty.Bit
+						}
 					}
 				}
 			}
@@ -449,7 +469,7 @@ func enumerate(tier string, shard, shards int, emit func(Case) bool) bool {
 }
 
 func gen(t *rapid.T) Case {
-	c := Case{Kind: rapid.SampledFrom([]string{"enum", "bits"}).Draw(t, "kind"), Via: rapid.SampledFrom([]string{"api", "module", "module", "typedef", "api-continued"}).Draw(t, "via")}
+	c := Case{Kind: rapid.SampledFrom([]string{"enum", "bits"}).Draw(t, "kind"), Via: rapid.SampledFrom([]string{"api", "module", "module", "typedef", "api-continued", "union-member"}).Draw(t, "via")}
 	n := rapid.IntRange(1, 12).Draw(t, "n")
 	min, max := enumMin, enumMax
 	if c.Kind == "bits" {
